@@ -83,4 +83,18 @@ theorem block_phase_outcome : type_of% @GM.Props.Blocks.parseBlocks_outcome := @
     notes/status_inlines.md and not yet proved; none occurred on 16.6M sources.) -/
 theorem process_delimiters_terminates : type_of% @GM.Props.Inlines.processDelimiters_terminates_no_panic := @GM.Props.Inlines.processDelimiters_terminates_no_panic
 
+/-- The whole inline phase with the CONCRETE default inline parsers (code span, emphasis + ProcessDelimiters, autolink,
+    raw HTML; the link parser only sees `!`) returns a tree — no Go panic, no non-termination — for every source
+    without `[` and `]`, every padding-free well-formed segment list, reference map and Unicode-class assignment. -/
+theorem inline_phase_total_without_brackets : type_of% @GM.Props.Inlines.parseBlock_fuel_suffices_nobracket := @GM.Props.Inlines.parseBlock_fuel_suffices_nobracket
+/-- …and for EVERY source given the one contract of `linkParser.Parse` that is not yet proved (stated precisely in
+    notes/status_inlines.md): the other four parsers' contracts are theorems. -/
+theorem inline_phase_total_given_link_contract : type_of% @GM.Props.Inlines.parseBlock_fuel_suffices_of_link_contract := @GM.Props.Inlines.parseBlock_fuel_suffices_of_link_contract
+
+/-- Block phase: blockquote.process, the paragraph parser's Open/Continue/Close, thematic-break Open and ATX Open never
+    panic from any reader state satisfying the block-phase reader invariant. -/
+theorem blockquote_process_total : type_of% @GM.Props.Blocks.blockquote_process_total_progress := @GM.Props.Blocks.blockquote_process_total_progress
+theorem paragraph_open_total : type_of% @GM.Props.Blocks.paragraph_open_total := @GM.Props.Blocks.paragraph_open_total
+theorem atx_open_total : type_of% @GM.Props.Blocks.atx_open_total := @GM.Props.Blocks.atx_open_total
+
 end GM.Props.C01
